@@ -262,21 +262,26 @@ def error_to_message(old_pr, log):
         e = event.exception
 
         if isinstance(e, error.RenderableError):
-            # the repr() here is quite important for garbage collection
-            log.info(
-                "Render request raised a renderable error (%s), responding accordingly.",
-                repr(e),
-            )
             try:
+                # the repr() here is quite important for garbage collection
+                log.info(
+                    "Render request raised a renderable error (%s), responding accordingly.",
+                    repr(e),
+                )
                 msg = e.to_message()
-                if not isinstance(msg, Message):
+                if (
+                    not isinstance(msg, Message)
+                    or msg.code is None
+                    or not msg.code.is_response()
+                ):
                     # This deserves a separate check because the ABC checks
                     # that should ensure that the default to_message method is
                     # never used in concrete classes fails due to the metaclass
                     # conflict between ABC and Exceptions (that gives None;
-                    # anything else that is not a message is as unusable)
+                    # anything else that is not a message is as unusable, and
+                    # so is a message that has no response code)
                     raise ValueError(
-                        "Exception to_message failed to produce a message on %r" % e
+                        "Exception to_message failed to produce a response message"
                     )
             except Exception as e2:
                 log.error(
